@@ -9,6 +9,7 @@ From Coq Require Import List String NArith ZArith Bool.
 Import ListNotations.
 From GMQ Require Import Broker.Model Proofs.BrokerFrames Proofs.BrokerTags Proofs.BrokerChanInv Proofs.BrokerWake.
 Open Scope N_scope.
+From GMQ Require Import Broker.gen.BrokerGen.
 
 (* wake on push and on requeue: the queue's call token is raised *)
 Theorem C07_push_raises_call :
@@ -82,3 +83,12 @@ Theorem C07_idle_means_no_pending_wake :
     (forall c cn h ch cm, In (c, cn) (conns s) -> In (h, ch) (cn_chans cn) -> In cm (ch_consumers ch) -> c_token cm = false).
 Proof. exact quiescent_no_pending_wake. Qed.
 Print Assumptions C07_idle_means_no_pending_wake.
+
+(* the order of signal and state change in the source, read off /repo on every run (translator/cmd/broker): a settle
+   releases before it wakes, flow-on un-pauses before it signals, push / requeue / pop-with-new-head / add-consumer call
+   the consumers, a consumer re-arms itself after a delivery *)
+Theorem C07_generated_wake_order :
+  settle_releases_before_wake = true /\ flow_unpauses_before_signal = true /\ queue_calls_consumers = true /\
+  consumer_rearms_after_delivery = true.
+Proof. repeat split; reflexivity. Qed.
+Print Assumptions C07_generated_wake_order.
